@@ -23,6 +23,7 @@ import (
 	"time"
 
 	"github.com/tailscale/setec/client/setec"
+	"github.com/tailscale/setec/types/api"
 
 	"verif/harness/internal/evid"
 	"verif/harness/internal/fakesvc"
@@ -135,11 +136,12 @@ func TestC12(t *testing.T) {
 		updaterStorm(t, r)
 		emptyValues(t, r)
 		damagedCacheEntries(t, r)
+		handlesAfterFailedCalls(t, r)
 		for i := 0; i < r.N(12, 90); i++ {
 			idleLookupsAcrossAPoll(t, r, i)
 		}
 	}
-	r.Require("starts_from_a_damaged_cache", "idle_lookups_across_a_poll", "empty_value_reads", "rollback_polls_after_a_failed_poll", "handle_reads_during_updater_storm", "reads_after_close_with_cache_fault", "rollback_polls", "handles_from_racing_lookups", "reads_validated", "reads_after_close", "polls_completed", "lookups_during_reads", "expiry_sweeps", "parked_probes_completed", "reader_serial_transitions", "read_after_poll_checks", "handles_obtained_during_poll")
+	r.Require("handle_calls_after_a_failed_call", "starts_from_a_damaged_cache", "idle_lookups_across_a_poll", "empty_value_reads", "rollback_polls_after_a_failed_poll", "handle_reads_during_updater_storm", "reads_after_close_with_cache_fault", "rollback_polls", "handles_from_racing_lookups", "reads_validated", "reads_after_close", "polls_completed", "lookups_during_reads", "expiry_sweeps", "parked_probes_completed", "reader_serial_transitions", "read_after_poll_checks", "handles_obtained_during_poll")
 	r.Rule("stress repetitions: 16 reader goroutines over handles of 3 declared + up to 4 looked-up secrets, concurrent with a background poller on a fast ticker, explicit Refresh callers, a service that keeps installing new values, lookups of fresh names, expiry sweeps driven by an injected clock, then Close with readers continuing; every read validated. Parked-request probes: while a poll/lookup/initial request is parked in the service, every handle is called 100 times. Distinct = (reader serial transition kind x concurrent event) and probe kinds")
 }
 
@@ -1184,5 +1186,86 @@ func damagedCacheEntries(t *testing.T, r *evid.Run) {
 			}
 			st.Close()
 		}
+	}
+}
+
+// handlesAfterFailedCalls: calls on the store that FAIL (a lookup, an updater or a struct field for a name the
+// service does not have or refuses; the same with lookups disabled; a builder that rejects the value) leave
+// the handles given out earlier as they were: their next call returns at once.
+func handlesAfterFailedCalls(t *testing.T, r *evid.Run) {
+	for _, allow := range []bool{true, false} {
+		svc := fakesvc.New()
+		svc.Set("h/known", 1, []byte("known-value"))
+		svc.Behave = func(q *fakesvc.Req) fakesvc.Behaviour {
+			if q.Name == "h/refused" {
+				return fakesvc.Behaviour{Fail: api.ErrAccessDenied, Plain: true}
+			}
+			return fakesvc.Behaviour{}
+		}
+		st, err := setec.NewStore(context.Background(), setec.StoreConfig{Client: svc, Secrets: []string{"h/known"}, AllowLookup: allow, PollInterval: -1, Logf: func(string, ...any) {}})
+		if err != nil {
+			t.Fatalf("NewStore: %v", err)
+		}
+		h := st.Secret("h/known")
+		ctx := context.Background()
+		failing := []struct {
+			what string
+			call func() error
+		}{
+			{"LookupSecret of an absent name", func() error { _, err := st.LookupSecret(ctx, "h/absent"); return err }},
+			{"NewUpdater on an absent name", func() error {
+				_, err := setec.NewUpdater(ctx, st, "h/absent", func(b []byte) (string, error) { return string(b), nil })
+				return err
+			}},
+			{"NewUpdater on a refused name", func() error {
+				_, err := setec.NewUpdater(ctx, st, "h/refused", func(b []byte) (string, error) { return string(b), nil })
+				return err
+			}},
+			{"NewUpdater whose builder rejects the value", func() error {
+				_, err := setec.NewUpdater(ctx, st, "h/known", func(b []byte) (string, error) { return "", errors.New("cannot parse") })
+				return err
+			}},
+			{"Apply of a field naming an absent secret", func() error {
+				var v struct {
+					F string `setec:"absent"`
+				}
+				f, err := setec.ParseFields(&v, "h")
+				if err != nil {
+					return err
+				}
+				return f.Apply(ctx, st)
+			}},
+		}
+		for _, fc := range failing {
+			if err := fc.call(); err == nil {
+				r.Violation("failing-call-succeeds", -1, fmt.Sprintf("%s (lookups enabled=%t) reported success", fc.what, allow), nil)
+				continue
+			}
+			got := make(chan []byte, 1)
+			go func() { got <- h.Get() }()
+			r.Eval(1)
+			r.Count("handle_calls_after_a_failed_call", 1)
+			r.Distinct(fmt.Sprintf("handle call after failed %s (lookups=%t)", fc.what, allow))
+			select {
+			case b := <-got:
+				if string(b) != "known-value" {
+					r.Violation("torn-value", -1, fmt.Sprintf("after a failed %s the handle of h/known yields %q", fc.what, b), nil)
+				}
+			case <-time.After(10 * time.Second):
+				buf := make([]byte, 1<<20)
+				buf = buf[:runtime.Stack(buf, true)]
+				dump := string(buf)
+				if strings.Contains(dump, "sync.(*Mutex).Lock") && strings.Contains(dump, "client/setec.(*Store)") {
+					if len(dump) > 6000 {
+						dump = dump[:6000]
+					}
+					r.Violation("handle-blocks-after-failed-call", -1, fmt.Sprintf("%s (lookups enabled=%t) returned its error - and afterwards a call of a handle obtained earlier does not return (10 s; it waits for the store's mutex, which nobody is going to release)", fc.what, allow), map[string]any{"stacks": dump})
+				} else {
+					r.Inconclusive("handle call after a failed call: slow, but not on the store mutex")
+				}
+				return // (the store is unusable now; it cannot even be closed)
+			}
+		}
+		st.Close()
 	}
 }
